@@ -54,7 +54,7 @@ class Ctl:
         self.in_reduce, self.red_tl, self.red_hd = False, 0, 0
         self.in_disp = self.in_qlen = self.locks = 0
         self.len_quiet = False
-        self.in_qapp, self.ctr_reads = False, 0
+        self.in_qapp, self.qapp_last, self.qapp_counted = False, None, False
 
 
 class Sched:
@@ -484,7 +484,13 @@ def _tracking(base):
                     lab = ['AppO']
                     s.degraded.append('queue entry not understood: %s' % type(ex).__name__)
                 if c.in_qapp and COUNTER[0]:
-                    s.emit(lab)             # same step as the read of the counter that numbered the entry
+                    # same step as the preceding access of the counter; the model counts one increment per
+                    # entry, before the entry appears, wherever the code stores the counter
+                    if not c.qapp_counted:
+                        s.emit(['Count'])
+                        c.qapp_counted = True
+                    s.emit(lab)
+                    c.qapp_last = 'a'
                 else:
                     _visible(lab)
             base.append(self, item)
@@ -556,18 +562,28 @@ TList = _tracking(list)
 COUNTER = [None]        # name of the queue object's counter attribute, found by install()
 
 
+SPLIT_RMW = [False]     # demonstration only: also pre-empt between the read and the write of `counter += 1`
+
+
 def _ctr_read(obj, d):
     s, c = _ctl()
     if c is not None and c.in_qapp:
-        c.ctr_reads += 1
-        if c.ctr_reads <= 2:
-            _visible(None)              # before `counter += 1` and before the entry is built: pre-emption points
+        _visible(None)                  # before every read of the shared counter: pre-emption point
+        c.qapp_last = 'r'
 
 
 def _ctr_write(obj, old, v):
     s, c = _ctl()
     if c is not None and c.in_qapp and old is not _NOVAL:
-        s.emit(['Count'])               # same step as the read it is computed from
+        # a write that directly follows a read of the counter is the store of `counter += 1` / `x = counter + 1;
+        # counter = x`: one step with that read.  A write-back after something else was accessed in between
+        # (e.g. after the entry has been appended) is a separate step: pre-emption point before it.
+        if c.qapp_last != 'r' or SPLIT_RMW[0]:
+            _visible(None)
+        if not c.qapp_counted:
+            s.emit(['Count'])
+            c.qapp_counted = True
+        c.qapp_last = 'w'
 
 
 def _wrap_qappend(orig):
@@ -577,12 +593,12 @@ def _wrap_qappend(orig):
             return orig(self, *a, **k)
         if not COUNTER[0]:
             _visible(['Count'])         # counter attribute not identified: count + append form one step
-        saved = (c.in_qapp, c.ctr_reads)
-        c.in_qapp, c.ctr_reads = True, 0
+        saved = (c.in_qapp, c.qapp_last, c.qapp_counted)
+        c.in_qapp, c.qapp_last, c.qapp_counted = True, None, False
         try:
             return orig(self, *a, **k)
         finally:
-            c.in_qapp, c.ctr_reads = saved
+            c.in_qapp, c.qapp_last, c.qapp_counted = saved
     append.__wrapped__ = orig
     return append
 
@@ -1196,6 +1212,19 @@ class C03(Prop):
                 for r in range(0, z['rg'] + 2):
                     for i in range(1, 14):
                         sw(mode, timer, [[0, -1], [1, -2], [0, z['jg'], 'v'], [0, r], [1, i], [0, -1], [1, -1], [0, -1]])
+            # the LOOP thread stopped at every position (in particular between the accesses of its own unlocked append)
+            # while another thread completes three whole fire() calls; the loop then moves on by 1-2 steps and the same
+            # thread fires three more before the batch is taken: per-thread order inside one batch
+            if tier == 'thorough' or (mode, timer) in (('fallback', False), ('select', False)):
+                for y in (1, 2):
+                    for r in range(0, z['r1'] + 2):
+                        sweep.append({'mode': mode, 'timer': timer, 'threads': [6], 'tmo': 0, 'sched': {
+                            'kind': 'seg', 'order': [0, 1],
+                            'segs': [[0, r], [1, -2], [1, -2], [1, -2], [0, y], [1, -1], [0, -1]]}})
+                    for r in range(0, z['r2'] + 2):
+                        sweep.append({'mode': mode, 'timer': timer, 'threads': [7], 'tmo': 0, 'sched': {
+                            'kind': 'seg', 'order': [0, 1],
+                            'segs': [[0, -1], [1, -2], [0, r], [1, -2], [1, -2], [1, -2], [0, y], [1, -1], [0, -1]]}})
             # the first accesses of a fire() (its reads before it appends) cut off at EVERY position of that tick
             if tier != 'thorough' and (mode, timer) in (('fallback', False), ('select', False)):
                 for r in range(0, z['r2'] + 2):
@@ -1209,7 +1238,7 @@ class C03(Prop):
             self.stats['sweep_sizes'] = sizes
             self.stats['sweep_cases'] = len(sweep)
         cases += sweep
-        for i in range(max(150, n - len(sweep)) if tier == 'quick' else n):
+        for i in range(max(100, n - len(sweep)) if tier == 'quick' else n):
             mode, timer = CONFIGS[i % len(CONFIGS)]
             threads = list(rng.choice(THREADS if tier == 'thorough' else THREADS[:5]))
             nt = len(threads) + 1
